@@ -99,3 +99,51 @@ Definition erase (names : bool) (d : dot) : dot :=
   {| d_bg := 0%N; d_top := erase_node names (d_top d);
      d_edges := map (fun e => {| e_src := e_src e; e_sport := e_sport e; e_dst := e_dst e; e_dport := e_dport e;
                                  e_label := e_label e; e_color := 0%N |}) (d_edges d) |}.
+
+(* ---- the specification at the strength of the property text: what the MONITOR evaluates on an observed drawing ----
+   The property promises, per node statement, the operation's display name and one cell per input and output port;
+   it says nothing about how (or whether) metadata is shown.  It promises a type label on VALUE edges; it says nothing
+   about labels on order / constant / function / control-flow edges.  `spec_b` above is the specification the model
+   (like today's code) meets - metadata lines present, non-value edges unlabelled; `spec_p_b` keeps exactly the
+   promised part of each clause. *)
+(* which of the two display names (with or without the extension prefix) a configuration shows is not promised -
+   only that nothing but the prefix depends on the option, which the monitor checks across configurations *)
+Definition carries_p_b (c : config) (i : ninfo) (s : nstmt) : bool :=
+  Z.eqb (ns_id s) (ni_idx i) && (str_eqb (ns_label s) (ni_name_q i) || str_eqb (ns_label s) (ni_name_u i)) &&
+  list_eqb Z.eqb (ns_in s) (map Z.of_nat (seq 0 (ni_nin i))) &&
+  list_eqb Z.eqb (ns_out s) (map Z.of_nat (seq 0 (ni_nout i))).
+Definition stmts_promised_b (c : config) (h : hview) (d : dot) : bool :=
+  forallb (fun s => match find_info (tree_infos (hv_tree h)) (ns_id s) with
+                    | Some i => carries_p_b c i s
+                    | None => false
+                    end) (dot_stmts (d_top d)).
+
+(* is (node, offset) the source port of a value link of the HUGR? *)
+Definition value_src (ls : list link) (n off : Z) : bool :=
+  existsb (fun l => Z.eqb (l_src l) n && Z.eqb (l_soff l) off &&
+                    match l_kind l with KValue _ => true | _ => false end) ls.
+(* an edge statement, its label read only when it leaves a value port *)
+Definition edge_of_stmt_p (ls : list link) (e : estmt) : Z * Z * Z * Z * str :=
+  (e_src e, e_sport e, e_dst e, e_dport e, if value_src ls (e_src e) (e_sport e) then e_label e else []).
+Definition EdgesOnceP (h : hview) (d : dot) : Prop :=
+  Permutation (map (edge_of_stmt_p (hv_links h)) (d_edges d)) (map edge_of_link (hv_links h)).
+Definition edges_promised_b (h : hview) (d : dot) : bool :=
+  perm_eqb edge_eqb (map (edge_of_stmt_p (hv_links h)) (d_edges d)) (map edge_of_link (hv_links h)).
+
+Definition spec_p_b (c : config) (h : hview) (d : dot) : bool :=
+  nodes_once_b h d && stmts_promised_b c h d && mirrors_perm_b (hv_tree h) (d_top d) && edges_promised_b h d.
+
+(* the promised content of a drawing: colours and the metadata text dropped (for the correspondence) *)
+Definition promised_stmt (s : nstmt) : nstmt :=
+  {| ns_id := ns_id s; ns_label := ns_label s; ns_data := []; ns_in := ns_in s; ns_out := ns_out s;
+     ns_back := 0%N; ns_border := 0%N |}.
+Fixpoint promised_node (d : dnode) : dnode :=
+  match d with
+  | DLeaf s => DLeaf (promised_stmt s)
+  | DCluster i body s _ => DCluster i (map promised_node body) (promised_stmt s) 0%N
+  end.
+Definition promised (ls : list link) (d : dot) : dot :=
+  {| d_bg := 0%N; d_top := promised_node (d_top d);
+     d_edges := map (fun e => {| e_src := e_src e; e_sport := e_sport e; e_dst := e_dst e; e_dport := e_dport e;
+                                 e_label := if value_src ls (e_src e) (e_sport e) then e_label e else [];
+                                 e_color := 0%N |}) (d_edges d) |}.
